@@ -19,13 +19,43 @@ def mem_bytes(address, n, salt=0):
     return [((address + i) * 37 + 11 + salt) & 0xFF for i in range(n)]
 
 
+class HoldInDm14:
+    """trace factory: numbers the line events one thread (the receive thread 'R:C' / 'R:S' or the application thread 'cliapp' /
+    'srvapp') executes in the DM14 code (memory_access.py, Dm14Query.py, Dm14Server.py) and holds it at the chosen one"""
+    FILES = ('memory_access.py', 'Dm14Query.py', 'Dm14Server.py')
+
+    def __init__(self, thread, point, hold=0.002):
+        self.thread, self.point, self.hold = thread, point, hold
+        self.count = 0
+        self.where = None
+
+    def __call__(self, lt, idx):
+        if lt.name != self.thread:
+            return None
+        me = self
+
+        def tracer(frame, event, arg):
+            if not frame.f_code.co_filename.endswith(me.FILES):
+                return tracer if event == 'call' else None
+            if event == 'line':
+                me.count += 1
+                if me.count == me.point:
+                    me.where = "%s:%d" % (frame.f_code.co_name, frame.f_lineno)
+                    rt.CUR.hold(me.hold)
+            return tracer
+        return tracer
+
+
 class DmWorld:
     """cfg: {'seed': None | int, 'base_lat', 'lat_grid', 'wake_grid', 'client': 'facade' | 'query'}"""
 
     def __init__(self, cfg, prefix=()):
         self.cfg = cfg
         self.ch = rt.Chooser(prefix)
-        self.w = w = rt.World(self.ch, wake_grid=cfg.get('wake_grid'))
+        self.pre = None
+        if cfg.get('preempt'):
+            self.pre = HoldInDm14(cfg['preempt']['thread'], cfg['preempt']['point'], cfg['preempt'].get('hold', 0.002))
+        self.w = w = rt.World(self.ch, wake_grid=cfg.get('wake_grid'), trace_factory=self.pre)
         rt.activate(w)
         self.bus = bus = Bus(w, base_lat=cfg.get('base_lat', 1e-3), lat_grid=cfg.get('lat_grid'))
         bus.send_cost = cfg.get('send_cost', 0.0)      # a blocking driver (every send call of a stack takes this long)
